@@ -395,6 +395,17 @@ func runCase(c Case) Out {
 			time.Sleep(200 * time.Microsecond)
 		}
 	} else {
+		// the functions that exist from the start must have reached their first gate
+		// (or the call must be over) before the schedule starts
+		startDeadline := time.Now().Add(3 * time.Second)
+		for time.Now().Before(startDeadline) && !returned.Load() {
+			genOK := auto || r.gen.atGate.Load()
+			redOK := auto || r.foreach || r.red.atGate.Load()
+			if genOK && redOK {
+				break
+			}
+			time.Sleep(20 * time.Microsecond)
+		}
 		if !quiesce() {
 			out.Err = "no quiescence at start"
 			return out
